@@ -95,7 +95,7 @@ def judge(ctx: core.Ctx, case: dict[str, Any]) -> None:
         if not o.is_liquid_error:
             ctx.count("non_liquid_error_forwarded_to_C02")
         ctx.evaluations += 1
-        ctx.violation(f"raises-{o.err_class}:{classify(case['loops'])}", f"{src!r:.200} raised {o.err_class}: {str(o.exc)[:80]}; model expects {exp!r:.120}")
+        ctx.violation(f"raises-{o.err_class}:{classify(case['loops'])}", f"{src!r:.200} raised {o.err_class}: {drv.safe_str(o.exc)[:80]}; model expects {exp!r:.120}")
         return
     if o.value != exp:
         ctx.evaluations += 1
